@@ -10,6 +10,7 @@ import (
 
 	logutil "github.com/boz/go-logutil"
 	"github.com/boz/kcache"
+	"github.com/boz/kcache/filter"
 	metav1 "k8s.io/apimachinery/pkg/apis/meta/v1"
 )
 
@@ -70,6 +71,8 @@ type NodeRT struct {
 	// SelfCloseAt > 0: the monitor's own handler calls Close() from inside its
 	// SelfCloseAt-th callback (the "watch until X, then stop" pattern)
 	NoInit      bool // the monitor's handler registers no OnInitialize
+	sf          *StatefulFilter
+	BeforeTraffic bool // created before anything was written to the server after its initial content
 	SelfCloseAt int
 	CbAct       string // what that callback does: close-self (default), close-parent, close-root, list, subscribe
 	selfClosed  bool
@@ -107,6 +110,8 @@ type H struct {
 	Overflow         bool
 	ExpectNoOverflow bool
 	ShareHB          bool
+	NextStateful      bool // the next immediate filtered node gets a stateful user filter object (same pointer on every Refilter)
+	StartRV           int  // server version when the controller was started (nothing had been written after the initial content)
 	NextMonitorNoInit bool // the next monitor made gets a handler without OnInitialize
 	hb               kcache.HandlerBuilder
 	// OnCbAct is told about an API call a monitor callback is about to make
@@ -149,6 +154,7 @@ func NewH(srv *Server, rootFilter FilterSpec, period time.Duration, logYield boo
 
 // Start builds the real controller over the simulated client.
 func (h *H) Start() {
+	h.StartRV = h.Srv.RV()
 	// the builder's setters are called in a drawn order (and the lister handle
 	// is taken before or after the client is set): configuration must not depend
 	// on the order in which it is given
@@ -368,7 +374,7 @@ func (h *H) MakeNode(parent *NodeRT, kind string, f FilterSpec, reader string) (
 	case "sub":
 		n.Sub, err = pub.Subscribe()
 	case "subf":
-		n.FSub, err = pub.SubscribeWithFilter(f.Build())
+		n.FSub, err = pub.SubscribeWithFilter(h.filterFor(n, f))
 		n.Filter, n.HasFilter = f, true
 	case "subff":
 		n.FSub, err = pub.SubscribeForFilter()
@@ -377,7 +383,7 @@ func (h *H) MakeNode(parent *NodeRT, kind string, f FilterSpec, reader string) (
 	case "clone":
 		n.Pub, err = pub.Clone()
 	case "clonef":
-		n.FPub, err = pub.CloneWithFilter(f.Build())
+		n.FPub, err = pub.CloneWithFilter(h.filterFor(n, f))
 		n.Filter, n.HasFilter = f, true
 	case "cloneff":
 		n.FPub, err = pub.CloneForFilter()
@@ -403,6 +409,7 @@ func (h *H) MakeNode(parent *NodeRT, kind string, f FilterSpec, reader string) (
 	n.CreatedStep = detsim.Steps()
 	n.CreatedSeq = h.EvSeq
 	n.CreatedRV = h.Srv.RV()
+	n.BeforeTraffic = h.Srv.RV() == h.StartRV
 	h.Nodes = append(h.Nodes, n)
 	detsim.Note("mknode %s parent=%v filter=%s", n.Name(), parentID(parent), f.String())
 	if n.Sub != nil && n.Mon == nil && (reader == "eager" || reader == "slow") {
@@ -728,10 +735,18 @@ func (h *H) Refilter(n *NodeRT, f FilterSpec) error {
 	n.RefilterPending = true
 	ff := f
 	n.PendingFilter = &ff
+	lf := f.Build()
+	if n.sf != nil {
+		// the application's own filter object: its state is changed in place and
+		// the SAME pointer is handed in again (it has no Equals, so the library
+		// cannot know whether it changed and has to reconcile)
+		n.sf.cur = lf
+		lf = n.sf
+	}
 	if n.FPub != nil {
-		err = n.FPub.Refilter(f.Build())
+		err = n.FPub.Refilter(lf)
 	} else {
-		err = n.FSub.Refilter(f.Build())
+		err = n.FSub.Refilter(lf)
 	}
 	if err == nil {
 		pf := n.Filter
@@ -741,6 +756,24 @@ func (h *H) Refilter(n *NodeRT, f FilterSpec) error {
 	}
 	detsim.Note("refilter %s -> %s err=%v", n.Name(), f.String(), err)
 	return err
+}
+
+// StatefulFilter is a user-defined filter: a pointer type with mutable state
+// and no Equals method.
+type StatefulFilter struct{ cur filter.Filter }
+
+func (s *StatefulFilter) Accept(o metav1.Object) bool { return s.cur.Accept(o) }
+
+// filterFor: the library filter a filtered node is created with - a fresh
+// value built from the term, or (NextStateful) the node's own stateful object.
+func (h *H) filterFor(n *NodeRT, f FilterSpec) filter.Filter {
+	if h.NextStateful {
+		h.NextStateful = false
+		n.sf = &StatefulFilter{cur: f.Build()}
+		detsim.Count("probe:stateful-user-filter")
+		return n.sf
+	}
+	return f.Build()
 }
 
 // ListIDs reads a cache; ok=false when the component is not running.
